@@ -47,6 +47,23 @@ def _pure_code_projection(text: str) -> bool:
     return False
 
 
+def _callers(P: Project, f: FuncInfo) -> set:
+    out = set()
+    for g in P.funcs.values():
+        for c in walk_local(g.node):
+            if isinstance(c, ast.Call) and P.resolve_call(g, c) is f:
+                out.add(g.fq)
+    return out
+
+
+def _serves_only_bool_helpers(P: Project, f: FuncInfo) -> bool:
+    inl = getattr(P, "inliner", None)
+    if inl is None or not inl.is_new(f):
+        return False
+    cs = _callers(P, f)
+    return bool(cs) and cs <= set(BOOL_HELPERS)
+
+
 def check(P: Project, R: Report) -> None:
     R.rule("R1", "NON_RETRYABLE_ERRORS and RETRYABLE_ERRORS are disjoint and every named code constant belongs to exactly one of them")
     R.rule("R2", "is_retryable_error is total: on every path it returns the complement of membership in NON_RETRYABLE_ERRORS and never raises")
@@ -410,6 +427,18 @@ def check(P: Project, R: Report) -> None:
                     ok = not exits_normal and rets and all(isinstance(r.value, ast.Constant) and r.value.value is False for r in rets) and not ho.exc
                     R.ob("R4", key + " returns False", ok, where, "documented boolean helper must report an error as False on every handler path",
                          sample=f"R4 {f.qual}: handler returns False ({BOOL_HELPERS[f.fq]})")
+                elif _serves_only_bool_helpers(P, f):
+                    # a new helper that does the request for the documented boolean calls and hands them the outcome: an
+                    # error must come back to them as "not acknowledged" (False, alone or first of a tuple)
+                    def _false_first(r_):
+                        v_ = r_.value
+                        if isinstance(v_, ast.Tuple) and v_.elts:
+                            v_ = v_.elts[0]
+                        return isinstance(v_, ast.Constant) and v_.value is False
+                    ok = not exits_normal and rets and all(_false_first(r_) for r_ in rets) and not ho.exc
+                    R.ob("R4", key + " reports the error to the boolean helper as False", ok, where,
+                         f"a helper serving only the documented boolean calls ends its error arm with {[ast.unparse(r_)[:40] for r_ in rets]} (falls through={exits_normal})",
+                         sample=f"R4 {f.qual}: serves {sorted(c_.split(':')[-1] for c_ in _callers(P, f))} — error arm returns False")
                 elif f.fq.split(".<locals>")[0] in NOT_REQUEST_HELPERS:
                     # the table names public functions; their nested helpers (whatever they are called) belong to them
                     why = NOT_REQUEST_HELPERS[f.fq.split(".<locals>")[0]]
